@@ -56,7 +56,7 @@ package jtypes
 //@   requires hasType != nil
 //@   ensures result ==> arrKind(kind(res(v)))
 //@   ensures !arrKind(kind(res(v))) ==> !result
-//@   assigns heap
+//@   assigns assumed nothing
 //@   loop 0 invariant 0 <= i && arrKind(kind(v)) && v == res(old(v))
 //@ func IsMap
 //@   ensures result == (kind(res(v)) == 21)
@@ -77,12 +77,27 @@ package jtypes
 //@   ensures (kind(res(v)) == 13 || kind(res(v)) == 14) ==> same(r0, fval(res(v)))
 //@   assigns nothing
 
+// The Callable interface as its callers see it: Name and ParamCount read; Call returns a value or an error (an
+// error comes with the zero Value; a value is Interface()-able) and may write evaluation-owned memory.
+// (Assumed at interface calls; of the implementations only lambdaCallable.Call is verified against it so far.)
+//@ nonnil payload jtypes.Callable
+//@ func iface:Callable.Name
+//@   assigns nothing
+//@ func iface:Callable.ParamCount
+//@   assigns nothing
+//@ func iface:Callable.Call
+//@   ensures r1 != nil ==> !valid(r0)
+//@   ensures (r1 == nil && valid(r0)) ==> canif(r0)
+//@   assigns heap
+
 // Callability is decided by the reflect type system (trusted): an uninterpreted predicate of the resolved Value.
 //@ func IsCallable
 //@   ensures result == ufb_callable(res(v))
 //@   ensures result ==> valid(res(v))
+//@   assigns nothing
 //@   trusted
 //@ func AsCallable
 //@   ensures r1 ==> (r0 != nil && ufb_callable(res(v)) && valid(res(v)))
 //@   ensures !r1 ==> r0 == nil
+//@   assigns nothing
 //@   trusted
